@@ -314,6 +314,8 @@ fn finish<K: Kern<D>, U: DataVal, const D: usize>(case: &Case, entry_name: &str,
                         .fact("kernel", K::NAME)
                         .fact("entry", entry_name)
                         .fact("retry", (b.effective.retry % 6) as u64)
+                        .fact("level4_only", err.contains("Delaunay property violation"))
+                        .fact("dim_ge4", D >= 4)
                         .fact("guarantee", (b.effective.guarantee % 3) as u64),
                 );
             } else {
